@@ -237,6 +237,20 @@ func driveKeys(t *testing.T, env emit.Env, w *emit.Writer) {
 			t.Fatal(err)
 		}
 		for _, raw := range raws {
+			var probe struct {
+				Segs []seg `json:"segs"`
+			}
+			if json.Unmarshal(raw, &probe) == nil && probe.Segs != nil {
+				c, err := replayOne(raw, "C40")
+				if err != nil {
+					t.Fatal(err)
+				}
+				c.Coq = "(KH " + c.Coq + ")"
+				c.Kind = "history"
+				c.Sig = "C40:insert-chunk-bound-in-history"
+				_ = w.Put(c)
+				continue
+			}
 			var in keysIn
 			if err := json.Unmarshal(raw, &in); err != nil {
 				t.Fatal(err)
@@ -285,6 +299,14 @@ func driveKeys(t *testing.T, env emit.Env, w *emit.Writer) {
 		}
 	}
 	for i := 0; i < env.N; i++ {
+		if i%4 == 3 { // a whole view history with value lengths at the chunk bounds
+			c := runGenerated(r, "C40")
+			c.Coq = "(KH " + c.Coq + ")"
+			c.Kind = "history"
+			c.Sig = "C40:insert-chunk-bound-in-history"
+			_ = w.Put(c)
+			continue
+		}
 		_ = w.Put(runKeys(genKeysCase(r)))
 	}
 }
